@@ -141,6 +141,7 @@ class Ref:
         self.lr_growth = 0    # seed-growing iterations
         self.features = set()  # node kinds evaluated successfully
         self.cut_failures = 0  # failures propagated because of a cut
+        self.cut_scopes = {}   # scope kind -> number of failures committed there
         self.backtracks = 0
         self.depth = 0
         self.max_depth = 0
@@ -148,6 +149,9 @@ class Ref:
         self.triggers = set()  # conditions under which a recorded known finding can manifest
         self.lr_heads = set()  # rules that acted as the head of a seed growth in this execution
         self.lr_involved = {}  # head rule -> rules re-entered while it was growing at the same position
+
+    def _scope(self, kind):
+        self.cut_scopes[kind] = self.cut_scopes.get(kind, 0) + 1
 
     # ------------------------------------------------------------ lexical
     def _eat(self, rx, pos):
@@ -327,6 +331,7 @@ class Ref:
                 except PFail:
                     if ch.cut:
                         self.cut_failures += 1
+                        self._scope('option')
                         raise
                     self.backtracks += 1
                     continue
@@ -348,6 +353,7 @@ class Ref:
             except PFail:
                 if ch.cut:
                     self.cut_failures += 1
+                    self._scope('optional')
                     raise
                 self.backtracks += 1
                 return pos
@@ -462,6 +468,7 @@ class Ref:
         items = []
         ast = st.ast
         first = True
+        lead_cut = False   # a cut passed by the leading element: docs `e {s ~ e}` is ONE option of `s%{e}+ | {}`
         while True:
             it = St(dict(ast))
             p = pos
@@ -486,10 +493,17 @@ class Ref:
                 cut = any(s.cut for s in scopes)
                 if first and positive:
                     f.first_cut = cut
+                    if cut:
+                        self._scope('closure-iteration-1')
                     raise
                 if cut:
-                    f.first_cut = first
+                    f.first_cut = first or lead_cut
                     self.cut_failures += 1
+                    explicit = any(s.cut for s in scopes[1:]) or (sep is None) or first
+                    if sep is not None and not first and len(scopes) > 1 and not any(s.cut for s in scopes[1:]):
+                        self._scope('join-after-separator')
+                    else:
+                        self._scope('closure-iteration-1' if first else 'closure-iteration-n')
                     raise
                 f.first_cut = False
                 self.backtracks += 1
@@ -503,6 +517,8 @@ class Ref:
             items.extend(vals)
             ast = newast
             pos = p
+            if first and it.cut:
+                lead_cut = True
             first = False
         st.ast = ast
         st.elems.append(CL(items))
